@@ -57,6 +57,19 @@ Fixpoint only_numeric_chars (s : string) : bool :=
       && only_numeric_chars r
   end.
 
+(* can strtod possibly accept a prefix-complete numeral here?  After blanks and one sign the text must
+   start with a digit, '.', "inf" or "nan" (any case); everything else is certainly not a number *)
+Definition numeral_start (s : string) : bool :=
+  let t := ltrim s in
+  let t := match t with String c r => if (Nat.eqb (nat_of_ascii c) 43 || Nat.eqb (nat_of_ascii c) 45)%bool then r else t | _ => t end in
+  match t with
+  | String c _ =>
+      let n := nat_of_ascii c in
+      ((Nat.leb 48 n && Nat.leb n 57) || Nat.eqb n 46 ||
+       is_prefix "inf" (lower (stake 3 t)) || is_prefix "nan" (lower (stake 3 t)))%bool
+  | EmptyString => false
+  end.
+
 Definition str2number (s : string) : tonum :=
   if (all_digits s && negb (String.eqb s ""))%bool
   then match parse_dec s with Some n => TNum (round53 (Z.of_N n)) | None => TUnsupported end
@@ -65,10 +78,10 @@ Definition str2number (s : string) : tonum :=
   | String "-" r =>
       if (all_digits r && negb (String.eqb r ""))%bool
       then match parse_dec r with Some n => TNum (round53 (- Z.of_N n)) | None => TUnsupported end
-      else if only_numeric_chars s then TUnsupported else TNotNumber
+      else if (only_numeric_chars s && numeral_start s)%bool then TUnsupported else TNotNumber
   | _ =>
       if String.eqb (ltrim s) "" then TNotNumber          (* "" and blanks are not numbers *)
-      else if only_numeric_chars s then TUnsupported else TNotNumber
+      else if (only_numeric_chars s && numeral_start s)%bool then TUnsupported else TNotNumber
   end.
 
 (* ---- number -> string, "%.<P>g" for an integer-valued double ---- *)
